@@ -171,6 +171,9 @@ def main():
     c.rule = "relabelling: %d models x {reference, renamed sites (reversed map order), spin-major ordering}; " % len(base) + "all lattices <=3 sites x 1..3 orbitals x 1..3 spins x both modes (1638), each under shuffled insertion order and %s labelling(s); non-trivial = distinct (lattice, mode)" % (3 if thorough else 1)
     c.exhaustive = True
     c.trusted = ["TLC", "harness/pv_index.hpp"]
+    # call histories of the documented workflow with every object constructed up front (spec/Workflow.tla)
+    import workflow
+    workflow.attach(c, {"IC"}, 'index classification')
     c.finish()
 
 
